@@ -70,7 +70,7 @@ else
 endif
 SAN_LINK ?= $(SAN_H)
 
-WRAPS := socket bind listen connect accept4 accept send recv close getsockname \
+WRAPS := fputs socket bind listen connect accept4 accept send recv close getsockname \
 	getpeername getsockopt setsockopt fcntl poll epoll_create1 epoll_ctl eventfd \
 	timerfd_create timerfd_settime clock_gettime stat lstat fopen unlink \
 	opendir readdir closedir getpid getenv syscall abort exit __assert_fail \
